@@ -730,7 +730,7 @@ class MPO(MPSGeometry):
         for i, site in enumerate(sites):
             W = np.array(Wflat[i], dtype)
             if permute:
-                W = W[site.perm, :, :]
+                W = W[site.perm, :, :, :][:, site.perm, :, :]
             # calculate the LegCharge of the right leg
             legs = [site.leg, site.leg.conj(), legL, None]  # other legs are known
             legs = npc.detect_legcharge(W, ci, legs, None, qconj=-1)
